@@ -1,6 +1,6 @@
 (* C05 requests: 500..509. *)
 From Coq Require Import List ZArith QArith Bool.
-From PV Require Import lib.Sx lib.Str lib.Result model.SccStash model.SccLayout spec.Spec608 spec.SpecScc05 spec.SpecScc05Inline extract.OrCommon.
+From PV Require Import lib.Sx lib.Str lib.Result model.SccStash model.SccLayout spec.Spec608 spec.SpecScc05 spec.SpecScc05Inline spec.SpecSccMixed extract.OrCommon.
 Import ListNotations.
 Open Scope Z_scope.
 
@@ -71,6 +71,10 @@ Definition dispatch (code : Z) (arg : sx) : option sx :=
                  end)
   | 506 => Some (match sx_program arg with       (* wave 7: the words of each load in the writer's layout ENM RCL rows EDM EOC *)
                  | Some p => of_list (fun l => of_list SI (emit_load_w (pg_doubled p) l)) (pg_loads p)
+                 | None => bad
+                 end)
+  | 507 => Some (match sx_program arg with       (* wave 8: per load [mixed_ok; words of the writer-style line, codes inside rows single] *)
+                 | Some p => of_list (fun l => SL [of_bool (mixed_ok l); of_list SI (emit_load_wm l)]) (pg_loads p)
                  | None => bad
                  end)
   | _ => None
